@@ -14,11 +14,13 @@ of a Compound is modelled as a dense `.dict` node of `Tree.lean`, and this file 
   list of 0–3 fields is completed by generated `year` / `month` / `day` fields;
 * `Explode` / `compoundSet` — `Compound.set`: what `explode` does is a PARAMETER restricted to the
   documented contract ("assign values to children": `self[field.name].set(v)` for fields in order, or
-  an exception escaping before anything was assigned);  `dateExplode` is `DateYYYYMMDD.explode`;
+  an exception escaping before anything was assigned, or — the wider contract — after a PREFIX of the
+  fields was assigned: `assignThenRaise`);  `dateExplode` is `DateYYYYMMDD.explode`;
 * `compoundStep` — one dict-protocol call on a Compound: `set` / `set_default` from here, everything
   else is `mapStep`.
 -/
 import Flatland.C10
+import Flatland.Generated.C04Tables
 namespace Flatland.C10.Compound
 open Flatland.Tree Flatland.PyList Flatland.C10
 
@@ -47,6 +49,11 @@ def preparedClass (info : SInfo) (dflt : Raw) (supplied : List Schema) (cids : N
 inductive Explode
   | assign (vs : List Raw)   -- `self[field_i.name].set(vs_i)` for the first `vs.length` fields, in field order
   | raises                   -- an exception escapes `explode` before any child was touched
+  | assignThenRaise (vs : List Raw)
+      -- the WIDER contract (n3): `self[field_i.name].set(vs_i)` for the first `vs.length` fields completed, then an
+      -- exception escapes `explode` — a member whose own `set()` raises (a `Constrained` whose `valid_value` raises:
+      -- that member keeps its state), in the `try` loop or in the `set(None)` fallback loop of
+      -- `DateYYYYMMDD.explode`; `Compound.set` swallows it and returns False, the prefix STAYS set
   deriving Repr, Inhabited
 
 /-- the `for … in zip(…, self.field_schema): self[child_schema.name].set(v)` loop -/
@@ -71,30 +78,26 @@ def compoundSet (ex : Raw → Explode) (n : Node) (raw : Raw) (next : Nat) : Set
     | .ok () => ⟨n.withKids r.1, r.2.1, .ok true⟩
     | .error .unsupported => ⟨n.withKids r.1, r.2.1, .error .unsupported⟩
     | .error _ => ⟨n.withKids r.1, r.2.1, .ok false⟩
+  | .assignThenRaise vs =>
+    let r := assignKids n.sch.subs vs n.kids next
+    match r.2.2 with
+    | .error .unsupported => ⟨n.withKids r.1, r.2.1, .error .unsupported⟩
+    | _ => ⟨n.withKids r.1, r.2.1, .ok false⟩
 
 /-! ## `DateYYYYMMDD.explode` -/
 
-def isLeap (y : Nat) : Bool := (y % 4 == 0 && y % 100 != 0) || y % 400 == 0
+/-- the Unicode tables of the running CPython (whitespace of `str.strip()`, the zero code points of every
+    `Nd` decade — what `\d` under `re.UNICODE` and `int()` accept), regenerated by `harness/extractors/c04.py` -/
+abbrev T : Flatland.Scalar.Tables := Flatland.Generated.C04.pyTables
 
-def daysIn (y m : Nat) : Nat :=
-  if m == 2 then (if isLeap y then 29 else 28)
-  else if m == 4 || m == 6 || m == 9 || m == 11 then 30 else 31
-
-def digitVal (c : Char) : Option Nat := if c.isDigit then some (c.toNat - 48) else none
-
-def num : List Char → Option Nat
-  | [] => some 0
-  | cs => cs.foldl (fun acc c => match acc, digitVal c with | some a, some d => some (a * 10 + d) | _, _ => none) (some 0)
-
-/-- `Date.adapt(text)`: strip, `^(\d{4})-(\d{2})-(\d{2})$` (ASCII digits), `datetime.date(y, m, d)` -/
+/-- `Date.adapt(text)`: `text.strip()` (Unicode whitespace), `^(\d{4})-(\d{2})-(\d{2})$` where `\d` is ANY Unicode
+    decimal digit (Arabic-Indic, full-width, … — `int()` reads them all; scripts may be mixed) and `$` also
+    matches before a final newline, then `datetime.date(y, m, d)`.  The reader is the one of the scalar model
+    (`Flatland.Scalar.matchDate` / `validDate`, compared with the real `Date` by C04). -/
 def parseDate (s : Str) : Option (Nat × Nat × Nat) :=
-  match strip s with
-  | [a, b, c, d, '-', e, f, '-', g, h] =>
-    (match num [a, b, c, d], num [e, f], num [g, h] with
-     | some y, some m, some dd =>
-       if 1 ≤ y && 1 ≤ m && m ≤ 12 && 1 ≤ dd && dd ≤ daysIn y m then some (y, m, dd) else none
-     | _, _, _ => none)
-  | _ => none
+  match Flatland.Scalar.matchDate T (Flatland.Scalar.strip T s) with
+  | some (y, m, d) => if Flatland.Scalar.validDate y m d then some (y, m, d) else none
+  | none => none
 
 /-- `DateYYYYMMDD.explode(value)` on the raw shapes of the model: `Date.adapt`; on success the three
     attributes are set on the children; on AdaptationError / TypeError every child is set to None;
